@@ -80,6 +80,37 @@ AREAS["C13"] = {
                         "actions are of the set-value kind or unknown; notify / playAudio are not modelled"],
     }
 
+AREAS["C14"] = {'area': 'c14',
+ 'id': 14,
+ 'coq': ['Base', 'Sched', 'Properties/C14.v'],
+ 'rule': 'seeded generator: start/end minutes (skewed to 0, 1, 59..61, 479/480, 719..721, 1379/1380, 1438/1439; 20% start = end, 30% wrapping past '
+         'midnight) written as H:MM or HH:MM; weekday lists chosen relative to the base day (empty, that day, the day before/after, all, all but '
+         'that day, random subsets, shuffled, duplicates); date lists (empty, or 1-3 of the base day, its neighbours, nearby days, such a date with '
+         'one of year/month/day changed, impossible dates such as 02-30, with duplicates); base days from week, month and year ends, 28/29 Feb and 1 '
+         'Mar of leap, non-leap and century years, 1969/1970, years 0..9999 and random days 1900-2200; instants within +-2 s (+-1 ns, +-1 s, +-2 s, '
+         'random) of the start, end and midnight of windows starting on the base day, the day before and the day after, plus random instants; 1 in 8 '
+         'cases malformed (strings outside H:MM / YYYY-MM-DD, text around a value, weekday numbers outside 0..6); each instant is handed to the code '
+         'in 4 Locations (UTC, +-14 h, half-hour and 45-minute offsets, DST zones); calendar sweep: one case per selected day of 1900-2200 (every '
+         'day in the thorough tier) whose schedule names exactly that day by date and weekday; thorough adds every minute of 2024-02-24..2024-03-03 '
+         'for 3 window shapes x 5 weekday sets. A case is non-trivial when the schedule is well-formed and has a non-empty filter or the instant '
+         'lies within 2 s of a window or day boundary; distinct by SHA-1 of (start, end, weekdays, dates, instant)',
+ 'trusted': ['model of schedule.activeForTime, timeRanges.filterWeekdays/filterDates/in and of the two regular expressions: '
+             "coq/theories/Sched/Model.v (hand-written, tied by this run's correspondence)",
+             'client/verif_schedule.go (verif-tagged wrapper around newSchedule(...).activeForTime)'],
+ 'level_text': 'proof: C14_exact / C14_exact_strings (for every start and end minute, weekday list, date list and instant the model of activeForTime '
+               "answers true exactly when some allowed UTC day's half-open window contains the instant), C14_two_days, C14_utc_only and the calendar "
+               'theorems C14_civil_epoch/_succ/_valid/_inverse are Coq theorems about the executable model; the model is run against the real '
+               'activeForTime on >9000 schedules x instants per run, each in several time.Locations, and must agree on every result, as must the '
+               "model's calendar and Go's time package",
+ 'level_note': "trusted: Coq kernel, extraction, OCaml driver, the Go harness; modelled not verified: Go's regexp (leftmost match of two fixed "
+               'expressions), strconv.Atoi on 1-4 digits, time.Date normalisation and Time.Before/After as integer comparison of nanosecond '
+               'instants; the theorems speak about schedules in the strict reading (H:MM or HH:MM below 24:00, YYYY-MM-DD), other strings are '
+               'covered by correspondence only',
+ 'assumptions': ["instants and window ends stay within the range in which Go's time.Time arithmetic does not overflow (|year| < 2.9e11)",
+                 "Go's time package has no leap seconds: a UTC day is 86400 s",
+                 "weekday and date filters are conjunctive (both must allow the window's start day), as the code applies them; an empty filter "
+                 'allows every day']}
+
 WIP = "not yet built in this round; the design (DESIGN.md section 6) claims it and the check is being added"
 NOT_CLAIMED = {pid: WIP for pid in ["C%02d" % i for i in range(1, 21)] if pid not in AREAS}
-HOOK_COMMITS = ["6f869d9"]
+HOOK_COMMITS = ["6f869d9", "e935e32"]
